@@ -194,3 +194,20 @@ def refusal_triggers(kname, pos, backend, t):
     if any(n[0] == "call" and any(a[0] == "list" for a in n[2]) for n in T.walk(t)):
         keys.append("list-argument@%s" % fam)
     return keys
+
+
+def relational_triggers(t, backend, flags, prob):
+    keys = []
+    has_all = any(n[0] == "lam" and n[2] == "all" for n in T.walk(t))
+    rels = {"author", "country", "post"}
+    to_one = any((n[0] == "attr" and n[1][0] == "id" and n[1][1] in rels) or
+                 (n[0] == "attr" and n[1][0] == "attr" and n[1][2] in rels) or
+                 (n[0] == "cmp" and n[2][0] == "id" and n[2][1] in rels)
+                 for n in T.walk(t))
+    if backend == "django" and has_all:
+        keys.append("django-all-lambda-not-negated")
+    if backend == "sqlalchemy" and to_one:
+        keys.append("sqla-inner-join-drops-null-fk-parents")
+    if "like-wildcard" in flags and backend == "sqlalchemy":
+        keys.append("sqla-like-wildcards-not-escaped")
+    return keys
